@@ -257,7 +257,7 @@ def register(_reg, _mt, STD):  # noqa: ANN001
 
     _extend('C01', [round5.rule_annotation_scopes, round5.rule_classifier_domains, round5.rule_literal_same_kind])
     _extend('C02', [round5.rule_classifier_domains, round5.rule_eq_after_kind, round5.rule_literal_same_kind, construction.rule_c14_r2, purity.rule_c01_r3])
-    _extend('C03', [round5.rule_record_before_hook, round5.rule_eq_after_kind, gates.rule_c09_r3, construction.rule_c14_r3])
+    _extend('C03', [round5.rule_record_before_hook, round5.rule_eq_after_kind, gates.rule_c09_r3, construction.rule_c14_r3, round5.rule_rejections_are_visible])
     _extend('C04', [gates.rule_c02_r1, round5.rule_eq_after_kind, round5.rule_descriptions_join_strings, round5.rule_handler_sets_are_tuples,
                     round5.rule_parallel_converters_unfiltered])
     _extend('C05', [round5.rule_parallel_converters_unfiltered, round5.rule_runtime_type_of_same_value, round5.rule_value_or_list_writer,
@@ -275,8 +275,8 @@ def register(_reg, _mt, STD):  # noqa: ANN001
     _extend('C17', [round5.rule_annotation_scopes, round5.rule_parameter_order, forwarding.rule_spec_substitution_keeps_settings, round5.rule_declarations_removed, round5.rule_layout_dispatch])
     _extend('C18', [round5.rule_handler_sets_are_tuples, round5.rule_keycache_forwards_everything, classes_rules.rule_c17_r1, round5.rule_field_settings_copied, round5.rule_any_keeps_handlers, agreement.rule_c05_r3])
     _extend('C19', [round5.rule_io_siblings_agree])
-    _extend('C01', [conditions.rule_c13_r3])
-    _extend('C02', [forwarding.rule_c18_r3])
+    _extend('C01', [conditions.rule_c13_r3, round5.rule_from_data_always_converts, classes_rules.rule_c15_r2])
+    _extend('C02', [forwarding.rule_c18_r3, round5.rule_from_data_always_converts])
     _extend('C04', [errors_rules.rule_c08_r2])
     _extend('C06', [pairs.rule_c03_r1, forwarding.rule_union_writer_keeps_handlers])
     _extend('C07', [unions.rule_c11_r1])
